@@ -75,6 +75,13 @@ AREAS = {
                 'the end of the previous boot subject to cleanness (every message received > 1 ms after every message of the previous boot); '
                 'non-trivial = tagged (several boots, several ECUs, resume flagged, inside / outside the claimed region)',
     },
+    'plg': {
+        'shrink_sep': ';', 'head_sep': ' | ',
+        'rule': '1-15 (thorough 1-40) messages taken in short runs from the repository example files (lc_ex002/004/006.dlt, ex_1970_1_1.dlt, the CAN traces '
+                'through the asc converter), some re-labelled to the ids the rewrite plugin looks at, some moved to other ECUs; two thirds of the cases run a '
+                'random subset of the real plugins NonVerbose / SomeIp / CAN / Muniic / Rewrite / FileTransfer (configured from /repo/tests) in a random order '
+                'through plugins_process_msgs, one third runs AnonymizePlugin and lifecycle detection on the original and on the anonymised trace',
+    },
     'dp': {
         'shrink_sep': ';', 'head_sep': None,
         'rule': 'byte streams built from items: well-formed messages (all 32 combinations of the optional header parts, both byte orders, '
@@ -151,6 +158,11 @@ PROPS = {
         'id': 'C08', 'area': 'lc8',
         'theorems': ['Props.C08_same_boot_belongs', 'Props.C08_absorb_same_boot', 'Props.C08_next_boot_fresh', 'Props.C08_excluded_witness'],
         'n_quick': 4000, 'n_thorough': 150000, 'project': _lc_project,
+    },
+    'C19': {
+        'id': 'C19', 'area': 'plg',
+        'theorems': ['Props.C19_anon_table_injective', 'Props.C19_anon_format_injective', 'Props.C19_anon_capacity_sharp'],
+        'n_quick': 1500, 'n_thorough': 40000,
     },
     'C05': {
         'id': 'C05', 'area': 'lc',
